@@ -1029,6 +1029,8 @@ pub trait ErasedVal {
     /// to_vec_with, encode, encode_with, Encoder::encode, Encoder::encode_with; len_with
     fn alt_encodings(&self) -> Vec<(&'static str, Result<Vec<u8>, EncErr>)>;
     fn alt_len(&self) -> usize;
+    /// `Encode::is_nil` of the value (the derived encoders omit fields for which it is true)
+    fn is_nil(&self) -> bool;
     /// the other public ways to decode the type: minicbor::decode, minicbor::decode_with, Decoder::decode_with
     /// (position is None for the slice-level functions)
     fn alt_decodes(&self, bytes: &[u8]) -> Vec<(&'static str, Result<Item, ErrClass>, Option<usize>)>;
@@ -1120,6 +1122,9 @@ where
     }
     fn alt_len(&self) -> usize {
         minicbor::len_with(&self.v, &mut ())
+    }
+    fn is_nil(&self) -> bool {
+        <T as Encode<()>>::is_nil(&self.v)
     }
     fn alt_decodes(&self, bytes: &[u8]) -> Vec<(&'static str, Result<Item, ErrClass>, Option<usize>)> {
         let mut d = Decoder::new(bytes);
@@ -1256,6 +1261,9 @@ where
     }
     fn alt_len(&self) -> usize {
         minicbor::len_with(self.val, &mut ())
+    }
+    fn is_nil(&self) -> bool {
+        <T as Encode<()>>::is_nil(self.val)
     }
     fn alt_decodes(&self, _bytes: &[u8]) -> Vec<(&'static str, Result<Item, ErrClass>, Option<usize>)> {
         Vec::new()
@@ -1471,6 +1479,8 @@ pub struct TypeEntry {
     pub raw: fn(&[u8], usize) -> Raw,
     pub values: fn() -> Vec<Box<dyn ErasedVal>>,
     pub borrowed: bool,
+    /// does `Decode::nil()` return Some for this type (the derived decoders then treat an absent field as that value)?
+    pub nil_some: fn() -> bool,
 }
 
 fn vals<T>() -> Vec<Box<dyn ErasedVal>>
@@ -1507,6 +1517,7 @@ macro_rules! entry {
             raw: raw_as::<$t>,
             values: vals::<$t>,
             borrowed: false,
+            nil_some: || <$t as Decode<()>>::nil().is_some(),
         })
     };
 }
@@ -1675,6 +1686,7 @@ pub fn type_table() -> Vec<TypeEntry> {
         },
         values: || small_strings().into_iter().map(|s| Box::new(VRef::<str> { val: leak(s.into_boxed_str()), dec: decode_str_ref }) as Box<dyn ErasedVal>).collect(),
         borrowed: true,
+        nil_some: || <&str as Decode<()>>::nil().is_some(),
     });
     v.push(TypeEntry {
         name: "&ByteSlice",
@@ -1698,6 +1710,7 @@ pub fn type_table() -> Vec<TypeEntry> {
                 .collect()
         },
         borrowed: true,
+        nil_some: || <&ByteSlice as Decode<()>>::nil().is_some(),
     });
     v.push(TypeEntry {
         name: "&CStr",
@@ -1717,6 +1730,7 @@ pub fn type_table() -> Vec<TypeEntry> {
                 .collect()
         },
         borrowed: true,
+        nil_some: || <&std::ffi::CStr as Decode<()>>::nil().is_some(),
     });
     v.push(TypeEntry {
         name: "&Path",
@@ -1736,9 +1750,10 @@ pub fn type_table() -> Vec<TypeEntry> {
                 .collect()
         },
         borrowed: true,
+        nil_some: || <&std::path::Path as Decode<()>>::nil().is_some(),
     });
     macro_rules! wb_borrowed {
-        ($name:expr, $shape:expr, $dec:ident, $vals:expr) => {
+        ($name:expr, $shape:expr, $dec:ident, $nil:expr, $vals:expr) => {
             v.push(TypeEntry {
                 name: $name,
                 shape: $shape,
@@ -1752,10 +1767,11 @@ pub fn type_table() -> Vec<TypeEntry> {
                 },
                 values: $vals,
                 borrowed: true,
+                nil_some: $nil,
             });
         };
     }
-    wb_borrowed!("bytes-codec &[u8]", Shape::Bytes, decode_wb_slice_ref, || {
+    wb_borrowed!("bytes-codec &[u8]", Shape::Bytes, decode_wb_slice_ref, || <WB<&[u8]> as Decode<()>>::nil().is_some(), || {
         small_bytes()
             .into_iter()
             .map(|s| {
@@ -1764,7 +1780,7 @@ pub fn type_table() -> Vec<TypeEntry> {
             })
             .collect()
     });
-    wb_borrowed!("bytes-codec Option<&[u8]>", Shape::Option(Box::new(Shape::Bytes)), decode_wb_opt_slice_ref, || {
+    wb_borrowed!("bytes-codec Option<&[u8]>", Shape::Option(Box::new(Shape::Bytes)), decode_wb_opt_slice_ref, || <WB<Option<&[u8]>> as Decode<()>>::nil().is_some(), || {
         let mut out: Vec<Box<dyn ErasedVal>> = vec![Box::new(VRef::<WB<Option<&'static [u8]>>> { val: leak(Box::new(WB(None))), dec: decode_wb_opt_slice_ref })];
         for s in small_bytes() {
             let l: &'static [u8] = leak(s.into_boxed_slice());
@@ -1772,7 +1788,7 @@ pub fn type_table() -> Vec<TypeEntry> {
         }
         out
     });
-    wb_borrowed!("bytes-codec &ByteSlice", Shape::Bytes, decode_wb_byteslice_ref, || {
+    wb_borrowed!("bytes-codec &ByteSlice", Shape::Bytes, decode_wb_byteslice_ref, || <WB<&ByteSlice> as Decode<()>>::nil().is_some(), || {
         small_bytes()
             .into_iter()
             .map(|s| {
